@@ -418,6 +418,9 @@ OUTCOMES = {
     'disabled': (['>>> # DISABLE_DOCTEST', '>>> mark("{id}")', '>>> raise ValueError("v")'], 'disabled', True),
     'disabled_script': (['>>> # SCRIPT', '>>> mark("{id}")'], 'disabled', True),
     'comment_only': (['>>> # just a comment'], 'skipped', False),
+    # a remark, an empty prompt line, and every real statement skipped: nothing runs
+    'remark_then_all_skipped': (['>>> # a remark', '>>>', '>>> mark("{id}")  # xdoctest: +SKIP', '>>> print("a")  # xdoctest: +SKIP',
+                                 'BOGUS'], 'skipped', False),
     # fails before any of its code has run: a directive that cannot be interpreted opens the doctest
     # rejected only when the part is compiled; alone (nothing has run before) and after a part that ran
     'fail_compile_first': (['>>> return 5'], 'failed', False),
